@@ -51,10 +51,22 @@ pub(crate) fn parse_defchordv2(
                 let chord_definitions = parse_chord_file(file_name)
                     .map_err(|e| anyhow_expr!(&chunk[0], "{}", e.msg))?;
                 let processed = chord_definitions.iter().map(|chord_def| {
-                    let chunk = chord_translation
+                    let translated = chord_translation
                         .translate_chord(chord_def)
                         .map_err(|e| anyhow_expr!(&chunk[0], "{}", e.msg))?;
-                    parse_single_chord(&chunk, s, &mut all_participating_key_sets)
+                    // The translated chord is not the text of any file: a problem with it is
+                    // reported at the include, naming the chord.
+                    parse_single_chord(&translated, s, &mut all_participating_key_sets).map_err(
+                        |e| {
+                            anyhow_expr!(
+                                &chunk[0],
+                                "chord '{}' of {}: {}",
+                                chord_def.keys,
+                                file_name,
+                                e.msg
+                            )
+                        },
+                    )
                 });
                 Ok::<_, ParseError>(processed.collect_vec())
             }
